@@ -14,3 +14,14 @@
 ; first n elements v of the float64 slice at ref with lo <= v < hi (C19 histogram buckets); its defining
 ; equations are stated, over the current heap, as loop axioms of the function that uses it.
 (declare-fun hcntF (Int Int (_ FloatingPoint 11 53) (_ FloatingPoint 11 53)) (_ FloatingPoint 11 53))
+; ---- lookup steps (C01): the graph the traversal reads, as the interface answers it ----
+; vexists(db, id): db.GetVertex(id, _) finds a vertex (the graph does not change while the traversal runs)
+(declare-fun vexists (Any Str) Bool)
+(declare-fun eexists (Any Str) Bool)
+; fnd(m): how many of the first m requested ids exist; defining equations are contract axioms
+(declare-fun fnd (Int) Int)
+; vlistlen(db), vlistid(db, j): length and j-th id of db.GetVertexList (likewise for edges)
+(declare-fun vlistlen (Any) Int)
+(declare-fun vlistid (Any Int) Str)
+(declare-fun elistlen (Any) Int)
+(declare-fun elistid (Any Int) Str)
